@@ -43,6 +43,8 @@ def _fail(clause, detail, case, extra=None):
 
 def supplied_vs_decoded(v, got, path=""):
     """self-consistency comparison used when the reference defines no expectation"""
+    if v is None:
+        return None   # "not specified"
     if isinstance(v, dict):
         if not isinstance(got, dict):
             return f"{path}: dict expected, got {got!r}"
